@@ -98,7 +98,14 @@ pub struct ProbeSignal<F> {
     /// "exhausted" is not "silent": when set, the probe keeps yielding `make(id, i)` after it has started
     /// to report exhaustion — what `finite.add_amp(endless)` or `finite.offset_amp(x)` do
     pub loud_after_end: bool,
+    /// Injected crash: armed with `k > 0`, the k-th pull from now unwinds with an `InjectedCrash` payload
+    /// *before* anything is counted or consumed (a source whose `next()` fails and whose host catches the
+    /// failure and carries on); it disarms itself when it fires.  Shared with the harness (and with clones).
+    pub crash: Rc<Cell<u32>>,
 }
+
+/// Payload of the unwinding injected by an armed `ProbeSignal`.
+pub struct InjectedCrash;
 
 impl<F: Frame> ProbeSignal<F> {
     /// A probe whose frame `i` is `make(id, i)`.
@@ -112,6 +119,7 @@ impl<F: Frame> ProbeSignal<F> {
                 pulls: pulls.clone(),
                 make,
                 loud_after_end: false,
+                crash: Rc::new(Cell::new(0)),
             },
             pulls,
         )
@@ -134,6 +142,13 @@ impl<F: TagFrame> ProbeSignal<F> {
 impl<F: Frame> Signal for ProbeSignal<F> {
     type Frame = F;
     fn next(&mut self) -> F {
+        let armed = self.crash.get();
+        if armed > 0 {
+            self.crash.set(armed - 1);
+            if armed == 1 {
+                std::panic::panic_any(InjectedCrash);
+            }
+        }
         self.pulls.bump();
         let f = match self.end {
             Some(e) if self.idx >= e && !self.loud_after_end => F::EQUILIBRIUM,
